@@ -200,7 +200,7 @@ def compu_p2i(cm: Optional[Dict[str, Any]], itype: str, ptype: str, y: Any) -> A
         return y
     from . import refcompu as RC
     if isinstance(y, bool):
-        raise Reject("bool")
+        y = int(y)  # (odxtools treats True/False as 1/0; whether that is acceptable is not this function's business)
     acc = RC.phys_to_int_accept(cm, itype, ptype, y)
     if acc is RC.INVALID:
         if ptype in ("A_INT32", "A_UINT32") and isinstance(y, int):
@@ -578,11 +578,28 @@ class Interp:
                 self.enc_dop(d["end_dop"], tv, e, pos, 0, False)
             return pos, outs
         if kind == "mux":
-            if not (isinstance(value, (tuple, list)) and len(value) == 2 and isinstance(value[0], str)):
+            if not (isinstance(value, (tuple, list)) and len(value) == 2 and isinstance(value[0], (str, int)) and not isinstance(value[0], bool)):
                 raise DontCare("mux value form", lossy=True)
             cname, cval = value
-            case = next((c for c in d["cases"] if c["name"] == cname), None)
             key = d["key"]
+            if isinstance(cname, int):
+                # odxtools also accepts the key value itself: the case is the first one whose limits contain it
+                kv_int = cname
+                case = self.mux_case_for(d, kv_int) or d.get("default")
+                if case is None:
+                    raise Reject("no case for this key")
+                kend, _ = self.enc_dop(key["dop"], kv_int, e, byte + key.get("byte", 0), key.get("bit") or 0, False)
+                out_i: Any = {}
+                if case.get("struct") is not None:
+                    pos, out_i = self.enc_dop(case["struct"], cval, e, byte + d.get("byte", 0), 0, is_end)
+                else:
+                    if cval not in ({}, None):
+                        raise DontCare("value for a case without structure")
+                    pos = max(kend, byte + d.get("byte", 0))
+                    if kend != byte + d.get("byte", 0):
+                        raise DontCare("structure-less case with key not adjacent to content")
+                return pos, (case["name"], out_i)
+            case = next((c for c in d["cases"] if c["name"] == cname), None)
             if case is not None:
                 kv = case["lo"]["v"] if isinstance(case["lo"], dict) else case["lo"]
                 first = self.mux_case_for(d, kv)
